@@ -16,7 +16,7 @@ RULE = ("catalogue of 12 site classes (two of them with equal ALT counts out of 
         "targets} through site::Reader, each record's Site value compared with the model (whose per-record result is proved "
         "state-independent); the same histories and 4-8 record histories as whole runs with 8 boundary targets (a population projected to length 1, no reduction) against the model's spectrum; on the binary: create(A++B) = create(A) + create(B) and every tested permutation of the "
         "records prints identical bytes without projection, equal within 1e-9*records with. non-trivial = history with "
-        ">= 2 different classes; cohorts of 70 and 140 samples with records skipping 1, 64, 65, 66, n-1, n samples followed by complete records")
+        ">= 2 different classes; cohorts of 70 and 140 samples with records skipping 1, 64, 65, 66, n-1, n samples followed by complete records; additivity with an empty part and with the parts given as BCF")
 
 COLS = ["a", "b", "c", "d"]
 SM = [("a", "A"), ("b", "A"), ("c", "B"), ("d", "B")]
@@ -115,7 +115,7 @@ def check(rep, tier, seed):
         if pr is not None and k % 4 == 1:
             # boundary targets: some populations projected away entirely (length 1), the others kept or reduced
             pr = ("s", [1 if rng.random() < 0.5 else rng.randrange(1, 2 * n + 2) for n in pop_sizes(sm)])
-        cut = rng.randrange(0, len(recs) + 1)
+        cut = rng.randrange(0, len(recs) + 1) if k % 5 else rng.choice([0, len(recs)])        # an EMPTY part is a part, too
         argv = ["create", "--precision", "12"] + cli_samples_arg(sm) + cli_project_arg(pr)
         # positions: two contigs, the second starting at the POS the first ended on; now and then the same POS twice in a row
         npos, p_, where = [], 0, []
@@ -127,12 +127,25 @@ def check(rep, tier, seed):
         order = list(range(len(recs))); rng.shuffle(order)
         perm = [recs[i] for i in order]
         for part, idxs in ((recs, range(len(recs))), (recs[:cut], range(cut)), (recs[cut:], range(cut, len(recs))), (perm, order)):
-            jobs.append((argv, render_vcf(cols, part, contigs=[where[i][0] for i in idxs], positions=[where[i][1] for i in idxs])))
+            v_ = render_vcf(cols, [[g if g != "." else "./." for g in r] for r in part] if k % 3 == 0 else part, contigs=[where[i][0] for i in idxs], positions=[where[i][1] for i in idxs])
+            if k % 3 == 0:
+                # the same through the other container (uncompressed BCF, htslib layout; every sixth: BGZF)
+                from callsets import bcf_encode_hts, bgzf_compress
+                b_ = bcf_encode_hts(v_)
+                v_ = v_ if b_ is None else (bgzf_compress(b_) if k % 6 == 0 else b_)
+            jobs.append((argv, v_))
         meta.append((argv, cols, recs, cut, pr))
     res = run_cli_many(jobs)
     for i, (argv, cols, recs, cut, pr) in enumerate(meta):
         whole, a, b, perm = res[4 * i:4 * i + 4]
         rep.count("additivity-permutation", " ".join(argv) + " records=%d cut=%d" % (len(recs), cut), True, n=4)
+        if whole[0] == 0 and any(r[0] != 0 for r in (a, b, perm)):
+            bad = [n_ for n_, r in (("first part", a), ("second part", b), ("permutation", perm)) if r[0] != 0]
+            rep.fail(kind="property-oracle", cls="state-leak:additivity", case="cut at %d of %d: %s fails" % (cut, len(recs), ", ".join(bad)), argv=["sfs"] + argv,
+                     stdin_hex=jobs[4 * i + (1 if a[0] != 0 else 2 if b[0] != 0 else 3)][1].hex()[:100000], observed={"rc": [r[0] for r in (a, b, perm)], "stderr": (a[2] + b[2] + perm[2]).decode(errors="replace")[-300:]},
+                     expected="every part (an empty one included) and every permutation of a call set that can be read can be read",
+                     detail="the whole call set gives a spectrum, yet a part of it (or a permutation) fails")
+            continue
         if any(r[0] != 0 for r in (whole, a, b, perm)):
             continue   # projection/builder error for this configuration: covered by C02
         pw, pa, pb, pp = [parse_text_spectrum(r[1]) for r in (whole, a, b, perm)]
@@ -140,11 +153,11 @@ def check(rep, tier, seed):
         tol = TOL * max(1, len(recs)) if pr else 0
         if pw[0] != pa[0] or any(abs(x - (y + z)) > tol for x, y, z in zip(vals(pw), vals(pa), vals(pb))):
             rep.fail(kind="property-oracle", cls="state-leak:additivity", case="cut at %d" % cut, argv=["sfs"] + argv,
-                     stdin=jobs[4 * i][1].decode(), observed=whole[1].decode()[:300], expected="sum of %s and %s" % (a[1].decode()[:150], b[1].decode()[:150]),
+                     stdin=jobs[4 * i][1].decode(errors="replace"), observed=whole[1].decode()[:300], expected="sum of %s and %s" % (a[1].decode()[:150], b[1].decode()[:150]),
                      detail="spectrum of the concatenation differs from the sum of the spectra of the parts")
         if (pr is None and whole[1] != perm[1]) or any(abs(x - y) > tol for x, y in zip(vals(pw), vals(pp))):
             rep.fail(kind="property-oracle", cls="state-leak:permutation", case="permuted records", argv=["sfs"] + argv,
-                     stdin=jobs[4 * i + 3][1].decode(), observed=perm[1].decode()[:300], expected=whole[1].decode()[:300],
+                     stdin=jobs[4 * i + 3][1].decode(errors="replace"), observed=perm[1].decode()[:300], expected=whole[1].decode()[:300],
                      detail="a permutation of the records gives a different spectrum")
     rep.assumptions += ["with projection the sums are compared within 1e-9*records (f64 summation order), without projection byte for byte"]
 
